@@ -362,7 +362,8 @@ Proof.
       - unfold store_value in H.
         destruct v as [z|]; [|destruct (cl_allow_none cl)]; inversion H; subst;
           rewrite ?pop_frame_reent, ?rollback_frame_reent; exact F2.
-      - inversion H; subst. now rewrite pop_frame_reent. }
+      - destruct v as [z|]; [|destruct (cl_allow_none cl)]; inversion H; subst;
+          rewrite ?pop_frame_reent, ?rollback_frame_reent; exact F2. }
     pose proof (Good_push st i cl HG El Em) as G1. fold st1 in G1.
     destruct (mem_item i (s_stack st)) eqn:Ein.
     { left. apply Hflag2. eapply MB; [exact Eb|]. unfold st1; simpl; try rewrite Ein; apply orb_true_r. }
@@ -409,7 +410,7 @@ Proof.
       assert (Hcase : (v = VNone /\ cl_allow_none cl = false) \/
                       (store_value st2 cl i v = (Val v, upd_data st2 (set_data (s_data st2) i v)) /\
                        none_check cl v = Val v)).
-      { unfold store_value, none_check. rewrite Ec. destruct v; [now right|].
+      { unfold store_value, none_check. destruct v; [now right|].
         destruct (cl_allow_none cl); [now right|now left]. }
       destruct Hcase as [(-> & Ea)|(Hs & Hnc)].
       * unfold store_value in H. rewrite Ea in H. inversion H; subst. apply Rollback. exact I'.
@@ -440,7 +441,12 @@ Proof.
         apply Hedge. transitivity (nearest_cached st (s_stack st)); [|exact En].
         apply nearest_cached_cells. exact Hcells2.
     + (* uncached *)
-      inversion H; subst r st'. clear H.
+      assert (Hcase : (v = VNone /\ cl_allow_none cl = false /\ (r, st') = (Err KNone, rollback_frame st2 0)) \/
+                      (r, st') = (Val v, pop_frame st2)).
+      { destruct v; [right; now rewrite <- H|].
+        destruct (cl_allow_none cl); [right; now rewrite <- H|left; repeat split; now rewrite <- H]. }
+      destruct Hcase as [(-> & Ea & H')|H']; inversion H'; subst r st'; clear H' H.
+      { apply Rollback. exact I'. }
       assert (Hc2 : is_cached st2 (fst i) = false).
       { unfold is_cached. rewrite Hcells2, El. exact Ec. }
       destruct (Good_pop_uncached st2 i (s_stack st) G2 K2 Hc2 I') as (G' & W' & Hcall).
@@ -452,10 +458,12 @@ Proof.
       intros g r' ds Hd Hr'. destruct g; [simpl in Hd; inversion Hd; congruence|]. simpl in Hd.
       unfold defs_of in Hd; simpl in Hd. rewrite El, Ec in Hd.
       destruct (dr_body g (s_cells st, s_refs st) (input_data st) (fst i) (snd i) [] (cl_body cl)) as [rg dg] eqn:Dg.
-      inversion Hd; subst r' ds. clear Hd.
+      assert (Hdg : ds = RObj (fst i) :: dg /\ rg <> OutOfFuel).
+      { destruct rg; inversion Hd; subst; split; auto; try discriminate. }
+      destruct Hdg as (-> & Hrg). clear Hd.
       (* the reads of the body are the ones covered above *)
       assert (dg = dsb).
-      { pose proof (dr_body_det _ _ _ _ _ _ _ _ _ _ _ _ Dg Hr' Dbb ltac:(discriminate)) as (_ & E). exact E. }
+      { pose proof (dr_body_det _ _ _ _ _ _ _ _ _ _ _ _ Dg Hrg Dbb ltac:(discriminate)) as (_ & E). exact E. }
       subst dg.
       assert (Hnc2 : nearest_cached st2 (s_stack st) = nearest_cached st (s_stack st))
         by (apply nearest_cached_cells; exact Hcells2).
